@@ -1,4 +1,5 @@
 import ZV.Model.Der0
+import ZV.Model.Time
 /-! line protocol for C19:  `c19 <op> <hex>`  and batch lines `c19 <op>* <prefix-hex> <k>`
     (all 256^k suffixes; output `n=<accepted> h=<sum of digests of the single outputs mod 1e9+7>`).
     Single outputs: see go/props/c19/c19.go (the two sides must print identical text). -/
@@ -81,12 +82,26 @@ def cbAny (s : Bytes) : One :=
   cbPart "" ((CB.readASN1 s).map fun e =>
     (toString e.tag.toNat ++ "/" ++ toString e.body.length, e.rest, CB.element e.tag e.body))
 
+def timeStr (t : ZV.Time.GoTime) : String := toString t.unix ++ "." ++ toString t.nsec ++ "@" ++ toString t.off
+
+/-- `ReadASN1GeneralizedTime`, re-encoded by `AddASN1GeneralizedTime` (model: `ZV.Model.Time`) -/
+def cbGTime (s : Bytes) : One :=
+  cbPart "" ((ZV.Time.CB.readGeneralizedTime s).map fun (t, rest) => (timeStr t, rest, ZV.Time.CB.addGeneralizedTime t))
+
+/-- `ReadASN1UTCTime` (no Builder counterpart): value and unread length -/
+def cbUTime (s : Bytes) : One :=
+  match ZV.Time.CB.readUTCTime s with
+  | .ok (t, rest) => ("ok:" ++ timeStr t ++ ":" ++ toString rest.length, true)
+  | .err => ("err", false)
+  | .panic => ("panic", false)
+
 def opOf (op : String) : Option (Bytes → One) :=
   match op with
   | "ea-int" => some eaInt | "ea-bool" => some eaBool | "ea-oid" => some eaOID
   | "ea-b128" => some eaB128 | "ea-bits" => some eaBits | "ea-hdr" => some eaHdr
   | "cb-int" => some cbInt | "cb-bool" => some cbBool | "cb-oid" => some cbOID
   | "cb-bits" => some cbBits | "cb-any" => some cbAny
+  | "cb-gtime" => some cbGTime | "cb-utime" => some cbUTime
   | _ => none
 
 def digest (s : String) : Nat :=
